@@ -17,6 +17,8 @@ import (
 	"fmt"
 	"io"
 	"os"
+	"strings"
+	"time"
 
 	"github.com/dolthub/dolt/go/store/chunks"
 	"github.com/dolthub/dolt/go/store/hash"
@@ -127,8 +129,25 @@ func (e *env) getAddrs(c chunks.Chunk) chunks.InsertAddrsCb {
 	}
 }
 
-func (e *env) open(memTable uint64) (*nbs.NomsBlockStore, error) {
-	return nbs.NewLocalStore(e.ctx, types.Format_DOLT.VersionString(), e.dir, memTable, nbs.NewUnlimitedMemQuotaProvider(), false)
+func (e *env) open(memTable uint64) (st *nbs.NomsBlockStore, err error) {
+	err = retryLock(func() error {
+		st, err = nbs.NewLocalStore(e.ctx, types.Format_DOLT.VersionString(), e.dir, memTable, nbs.NewUnlimitedMemQuotaProvider(), false)
+		return err
+	})
+	return st, err
+}
+
+// lockFileTimeout (100 ms) expires spuriously on a loaded machine; the call fails before touching the
+// manifest and is repeated.
+func retryLock(f func() error) error {
+	var err error
+	for i := 0; i < 100; i++ {
+		if err = f(); err == nil || !strings.Contains(err.Error(), "lock timeout exceeded") {
+			return err
+		}
+		time.Sleep(5 * time.Millisecond)
+	}
+	return err
 }
 
 func classify(err error) (string, string) {
@@ -148,7 +167,12 @@ func (e *env) inspect() (int, bool, error) {
 		return 0, false, err
 	}
 	defer st.Close()
-	root, err := st.Root(e.ctx)
+	var root hash.Hash
+	err = retryLock(func() error {
+		var rerr error
+		root, rerr = st.Root(e.ctx)
+		return rerr
+	})
 	if err != nil {
 		return 0, false, err
 	}
@@ -211,7 +235,7 @@ func Run(raw json.RawMessage) (any, error) {
 		switch ev.K {
 		case "put":
 			ch := e.chunk(*ev.Chunk)
-			o.Res, o.Msg = classify(st.Put(ctx, ch, e.getAddrs))
+			o.Res, o.Msg = classify(retryLock(func() error { return st.Put(ctx, ch, e.getAddrs) }))
 		case "commit":
 			last := e.addrOf(0)
 			if ev.Last < 0 {
@@ -223,13 +247,18 @@ func Run(raw json.RawMessage) (any, error) {
 				last = e.addrOf(ev.Last)
 			}
 			o.Last = e.idOf(last)
-			ok, err := st.Commit(ctx, e.addrOf(ev.Current), last)
+			var ok bool
+			err := retryLock(func() error {
+				var cerr error
+				ok, cerr = st.Commit(ctx, e.addrOf(ev.Current), last)
+				return cerr
+			})
 			o.Res, o.Msg = classify(err)
 			if err == nil && !ok {
 				o.Res = "false"
 			}
 		case "rebase":
-			o.Res, o.Msg = classify(st.Rebase(ctx))
+			o.Res, o.Msg = classify(retryLock(func() error { return st.Rebase(ctx) }))
 		case "ext":
 			peer, err := e.open(1 << 20)
 			if err != nil {
@@ -245,7 +274,12 @@ func Run(raw json.RawMessage) (any, error) {
 				if err != nil {
 					return err
 				}
-				ok, err := peer.Commit(ctx, e.addrOf(ev.Root), last)
+				var ok bool
+				err = retryLock(func() error {
+					var cerr error
+					ok, cerr = peer.Commit(ctx, e.addrOf(ev.Root), last)
+					return cerr
+				})
 				if err == nil && !ok {
 					return errors.New("peer commit refused")
 				}
@@ -271,7 +305,7 @@ func Run(raw json.RawMessage) (any, error) {
 			if err != nil {
 				return nil, fmt.Errorf("WriteTableFile: %w", err)
 			}
-			aerr := st.AddTableFilesToManifest(ctx, map[string]int{name: len(cl)}, e.getAddrs)
+			aerr := retryLock(func() error { return st.AddTableFilesToManifest(ctx, map[string]int{name: len(cl)}, e.getAddrs) })
 			if closer != nil {
 				closer.Close()
 			}
